@@ -17,6 +17,7 @@ Databases are lists of applied segments as in SnapFSDrv.
   due                                     → full | incremental
   ls                                      → names, `t` suffix for temporary
   open <name>                             → <db> | err <kind>
+  admissible <op …>                       → yes | no     (is the operation inside the side conditions `OpOK'` of C09's theorems?)
 -/
 import RqModel.Model.SnapCat
 import RqModel.Model.SnapFSDrv
@@ -46,8 +47,32 @@ def lsStr (fs : FS DB) : String :=
     (fs.dir n).map fun d => s!"{n}{if d.tmp then "t" else ""}"
   if ns.isEmpty then "-" else " ".intercalate ns
 
+def parseOp : List String → Option (COp DB)
+  | ["create", h, n, i, t] =>
+    match h.toNat?, n.toNat?, i.toNat?, t.toNat? with
+    | some h, some n, some i, some t => some (.create h n i t)
+    | _, _, _, _ => none
+  | ["wfull", h, db, ws, v] =>
+    match h.toNat?, optDbTok db, natsTok ws, verdictTok v with
+    | some h, some (some db), some ws, some v => some (.wfull h db ws v)
+    | _, _, _, _ => none
+  | ["winc", h, ws] =>
+    match h.toNat?, natsTok ws with
+    | some h, some ws => some (.winc h ws)
+    | _, _ => none
+  | ["crashclose", h, c] =>
+    match h.toNat?, cutTok c with
+    | some h, some c => some (.crashClose h c)
+    | _, _ => none
+  | ["reap", nn] => nn.toNat?.map .reap
+  | _ => none
+
 def step (d : DState) (line : String) : DState × String :=
   match words line with
+  | "admissible" :: rest =>
+    match parseOp rest with
+    | some op => (d, if okB d.s op then "yes" else "no")
+    | none => (d, "bad-op")
   | ["reset"] => ({}, "ok")
   | ["create", h, n, i, t] =>
     match h.toNat?, n.toNat?, i.toNat?, t.toNat? with
